@@ -31,7 +31,7 @@ SWAPPED = {"fpr": "fnr", "tpr": "tnr", "topr": "tonr", "fnr": "fpr", "tnr": "tpr
 
 def bounds(tier):
     if tier == "quick":
-        return {"max_pos": 3, "max_neg": 3, "easy": [[0, 0], [1, 2], [3, 0]], "grids": ["irregular", "dyadic"],
+        return {"max_pos": 3, "max_neg": 3, "easy": [[0, 0], [1, 2], [3, 0]], "grids": ["irregular", "dyadic", "int"],
                 "affine": AFFINE}
     return {"max_pos": 4, "max_neg": 4, "easy": [[0, 0], [1, 2], [3, 0], [0, 1], [2, 2]],
             "grids": ["irregular", "dyadic", "int"], "affine": AFFINE}
@@ -116,9 +116,10 @@ def run(item, ctx, tier, seed):
                     ctx.fail("negation-leaves-matrix-unchanged", dict(case, threshold=T[k]), observed=mn[k],
                              expected=m0[k])
             # ---------------------------------------------------- affine maps
-            maps = []
             if item["grid"] != "int":
                 maps = [tuple(m) for m in b["affine"]]
+            else:
+                maps = [(2, 1), (3, -100)]  # integer maps keep the integer dtype of the scores
             objs = []
             for a_, b_ in maps:
                 apos, aneg = [a_ * x + b_ for x in pos], [a_ * x + b_ for x in neg]
@@ -165,16 +166,30 @@ def run(item, ctx, tier, seed):
                             ctx.fail("negation-negates-thresholds", dict(case, metric=metric, r=float(targets[k])),
                                      observed=float(tn_[k]), expected=-float(t0[k]))
                 for a_, b_, sa in objs:
-                    ok2, ta = guarded(ctx, "affine-threshold", dict(case, metric=metric, a=a_, b=b_),
-                                      lambda: np.asarray(getattr(sa, "threshold_at_" + metric)(targets), dtype=float))
-                    ctx.tick(len(targets))
-                    if ok2:
-                        tol = 1e-9 * (a_ * max(scale, rng_) + abs(b_))
-                        bad = np.abs(ta - (a_ * t0 + b_)) > tol
-                        if bad.any():
-                            k = int(np.argmax(bad))
-                            ctx.fail("affine-maps-thresholds", dict(case, metric=metric, r=float(targets[k]), a=a_, b=b_),
-                                     observed=float(ta[k]), expected=a_ * float(t0[k]) + b_)
+                    for method in ("linear", "lower", "higher"):
+                        if method == "linear":
+                            tm0 = t0
+                        else:
+                            okm, tm0 = guarded(ctx, "threshold", dict(case, metric=metric, method=method),
+                                               lambda: np.asarray(getattr(s, "threshold_at_" + metric)(targets, method=method), dtype=float))
+                            if not okm:
+                                continue
+                        ok2, ta = guarded(ctx, "affine-threshold", dict(case, metric=metric, a=a_, b=b_, method=method),
+                                          lambda: np.asarray(getattr(sa, "threshold_at_" + metric)(targets, method=method), dtype=float))
+                        ctx.tick(len(targets))
+                        if ok2:
+                            tol = 1e-9 * (a_ * max(scale, rng_) + abs(b_))
+                            diff = np.abs(ta - (a_ * tm0 + b_))
+                            if method != "linear":
+                                # lower/higher are discontinuous at grid targets: judge off-grid targets only
+                                x = targets * n
+                                diff = np.where(np.abs(x - np.round(x)) < 1e-6, 0.0, diff)
+                            bad = diff > tol
+                            if bad.any():
+                                k = int(np.argmax(bad))
+                                ctx.fail("affine-maps-thresholds", dict(case, metric=metric, r=float(targets[k]), a=a_, b=b_, method=method),
+                                         observed=float(ta[k]), expected=a_ * float(tm0[k]) + b_)
+                                break
             # EER / AUC
             if both:
                 ok, (t_e, e) = guarded(ctx, "eer", case, s.eer)
